@@ -30,6 +30,19 @@ IMPL["segwitenc"] = lambda h, v, d: tx(SegwitBech32Encoder.Encode(untx(h), int(v
 IMPL["bchenc"] = lambda h, v, d: tx(BchBech32Encoder.Encode(untx(h), unhx(v), unhx(d)))
 
 B58 = "123456789ABCDEFGHJKLMNPQRSTUVWXYZabcdefghijkmnopqrstuvwxyz"
+NIM_ALPHABET = "0123456789ABCDEFGHJKLMNPQRSTUVXY"
+
+
+def _ss58_checksum(payload):
+    """SS58: first two bytes of BLAKE2b-512("SS58PRE" || payload) — computed with hashlib, independent of the library"""
+    import hashlib
+    return hashlib.blake2b(b"SS58PRE" + payload, digest_size=64).digest()[:2]
+
+
+def _nim_checksum(enc):
+    """Nimiq IBAN-style check digits of a Base32 body: 98 - (digits(body + "NQ00") mod 97), two decimal digits"""
+    digits = "".join(ch if ch in "0123456789" else str(ord(ch) - 55) for ch in (enc + "NQ00"))   # letters A=10…; same rule for any other symbol
+    return "%02d" % (98 - int(digits) % 97)
 B32C = "qpzry9x8gf2tvdw0s3jn54khce6mua7l"
 EXTRA = "0OIl+/= _-.:bio1BIOKé😀"
 
@@ -152,16 +165,15 @@ def gen(rng, tier):
         for m, kind in mutations(rng, s, B58, n_mut):
             yield Case("xmrdec", [tx(m)], "neg-" + kind)
     # directed non-canonical encodings / reserved prefixes / published vectors
-    from bip_utils.ss58.ss58 import _SS58Utils
     for pre in (b"\x80", b"\xc0\x00", bytes([0x41, 0x40]), bytes([0x40, 0x00]), bytes([0x7f, 0xff]), bytes([0x4b, 0x80]), bytes([0x4b, 0xc0]), bytes([46]), bytes([47])):
         p = pre + bytes(range(32))
-        yield Case("ss58dec", [tx(Base58Encoder.Encode(p + _SS58Utils.ComputeChecksum(p)))], "neg-noncanon")
+        yield Case("ss58dec", [tx(Base58Encoder.Encode(p + _ss58_checksum(p)))], "neg-noncanon")
     # every first byte from 0x40 up (two-byte forms, the reserved range 0x80-0xff) with representative second bytes, valid checksum
     acct = bytes(rng.randrange(256) for _ in range(32))
     for b0 in range(0x40, 0x100):
         for b1 in (0x00, 0x3f, 0x40, 0x45, 0xff):
             p = bytes([b0, b1]) + acct
-            yield Case("ss58dec", [tx(Base58Encoder.Encode(p + _SS58Utils.ComputeChecksum(p)))], "neg-ss58-prefix" if b0 >= 0x80 else "ss58-two-byte")
+            yield Case("ss58dec", [tx(Base58Encoder.Encode(p + _ss58_checksum(p)))], "neg-ss58-prefix" if b0 >= 0x80 else "ss58-two-byte")
     for s in ("", "1", "11", "zzzzzzzzzzz", "zz", "11111111112", "jpXCZedGfVQ", "jpXCZedGfVR", "1111111111", "5Q", "5R", "LUv", "LUw", "2UzHL", "2UzHM",
               "ZiCa", "ZiCb", "VtB5VXc", "3CUsUpv9t", "3CUsUpv9u", "Ahg1opVcGW", "Ahg1opVcGX"):
         yield Case("xmrdec", [tx(s)], "neg-xmrblock")
@@ -179,15 +191,14 @@ def gen(rng, tier):
         yield Case("segwitdec", [tx("bc"), tx(s)], "vector-segwit")
     # directed: past failures of address decoders (padding bits, padded Base32, foreign payload sizes)
     from bip_utils import NanoAddrEncoder, NimAddrEncoder, XmrAddrEncoder, Base32Encoder
-    from bip_utils.addr.nim_addr import _NimAddrUtils, NimAddrConst
     for i in range(3 if tier == "quick" else 40):
         pub = pub_forms("ed25519blake2b", rand_priv(rng, "ed25519blake2b"))[0]
         a = NanoAddrEncoder.EncodeKey(pub)
         for c in "13456789abcdefghijkmnopqrstuwxyz":
             yield Case("addrdec", ["nano", tx("nano_" + c + a[6:])], "directed-nano-pad")
         for n in (16, 17, 18, 19, 20):
-            enc = Base32Encoder.Encode(bytes(rng.randrange(256) for _ in range(n)), NimAddrConst.BASE32_ALPHABET)
-            yield Case("addrdec", ["nim", tx("NQ" + _NimAddrUtils.ComputeChecksum(enc) + enc)], "directed-nim-padded")
+            enc = Base32Encoder.Encode(bytes(rng.randrange(256) for _ in range(n)), NIM_ALPHABET)
+            yield Case("addrdec", ["nim", tx("NQ" + _nim_checksum(enc) + enc)], "directed-nim-padded")
         for hrp in ("bc", "tb", "ltc"):
             for v, ln in ((0, 32), (0, 20), (1, 32), (1, 20)):
                 yield Case("addrdec", ["p2wpkh", tx(SegwitBech32Encoder.Encode(hrp, v, bytes(rng.randrange(256) for _ in range(ln)))), "hrp=" + tx(hrp)], "directed-witprog")
